@@ -1,8 +1,8 @@
 #!/bin/bash
-# usage: tools/try_r2.sh <prop> [checks...]   -- runs the round-2 seeds of /tmp/seed-out2/<prop> against the checks
+# usage: [SEEDROOT=/tmp/seed-out3] tools/try_r2.sh <prop> [checks...]   -- runs the seeds of $SEEDROOT/<prop> against the checks
 p=$1; shift; checks=${@:-$p}
 for m in m1 m2 m3; do
-  d=/tmp/seed-out2/$p/$m
+  d=${SEEDROOT:-/tmp/seed-out2}/$p/$m
   [ -f $d/patch.diff ] || continue
   echo "== $p $m: $(head -1 $d/notes.md | cut -c1-150)"
   TAILN=${TAILN:-3} /verif/tools/try_seed.sh $d/patch.diff $checks 2>&1 | grep -E "^obligation|quick:|BROKEN|PATCH" | cut -c1-260
